@@ -1,6 +1,7 @@
 #!/bin/bash
 # builds every Props module + the driver (run before committing any Lean change; check.py builds only one property's modules)
-cd "$(dirname "$0")/../lean" && LEAN_NUM_THREADS=${LEAN_NUM_THREADS:-8} lake build $(ls NomtModel/Props/*.lean | sed 's#/#.#g; s#\.lean$##') NomtModel nomt_model 2>&1 | grep -v "^✔\|^ℹ\|Replayed\|^trace" | tail -20
+ROOT="$(cd "$(dirname "$0")/.." && pwd)"
+cd "$ROOT/lean" && LEAN_NUM_THREADS=${LEAN_NUM_THREADS:-8} lake build $(ls NomtModel/Props/*.lean | sed 's#/#.#g; s#\.lean$##') NomtModel nomt_model 2>&1 | grep -v "^✔\|^ℹ\|Replayed\|^trace" | tail -20
 # every Props module must be importable together with every other one (a property's axiom audit imports all its Props files at once:
 # two modules declaring the same name make that import fail)
-cd "$(dirname "$0")/../lean" && mkdir -p .lake/audit && ls NomtModel/Props/*.lean | sed 's#/#.#g; s#\.lean$##; s#^#import #' > .lake/audit/AllProps.lean && lake env lean .lake/audit/AllProps.lean 2>&1 | head -5
+cd "$ROOT/lean" && mkdir -p .lake/audit && ls NomtModel/Props/*.lean | sed 's#/#.#g; s#\.lean$##; s#^#import #' > .lake/audit/AllProps.lean && lake env lean .lake/audit/AllProps.lean 2>&1 | head -5
